@@ -254,12 +254,16 @@ def run(tier, seed):
                         groups[(k, pi)].append(pub)
                         dl = [bytes.fromhex(x) for x in d.split("+") if x]
                         ok = False
-                        if len(dl) == 1 and len(dl[0]) == 32:
-                            key = M.le(dl[0])
+                        from sessions import key_candidates
+                        for cand in key_candidates(dl):
+                            key = M.le(cand)
                             if k == "B":
                                 ok = M.to_le(M.calc_B(M.le(v0), key)) == pub
                             else:
                                 ok = M.to_le(M.calc_A(key)) == pub
+                            if ok:
+                                dl = [cand]
+                                break
                         if ok:
                             attributed[k] += 1
                             draws[k].append(dl[0])
